@@ -13,6 +13,32 @@ pub fn run_section(sid: &str, tag: &Value, section: &[u8], out: &mut dyn Write) 
         .unwrap_or_else(|p| panic_value(&p));
     writeln!(out, "{}", json!({"fam": "tlv", "sid": sid, "op": "TlvOpen", "tag": tag, "sec": rl(section), "open": open})).unwrap();
     n += 1;
+    // the same section through the other ways an `Iterator` can be consumed (each on a fresh cursor)
+    let derived = guard(|| {
+        let strip = |v: Value| -> Value {
+            // only what identifies the item
+            match v["k"].as_str() {
+                Some("ok") => json!({"k": "ok", "t": v["t"], "v": v["v"]}),
+                Some("err") => json!({"k": "err", "e": v["e"], "a": v["a"], "b": v["b"]}),
+                _ => json!({"k": "none"}),
+            }
+        };
+        let limit = section.len() / 3 + 4;
+        let nth: Vec<Value> = (0..limit.min(6)).map(|n| strip(tlv_item(TypeLengthValues::from(section).nth(n)))).collect();
+        let skip2: Vec<Value> = TypeLengthValues::from(section).skip(2).take(limit).map(|r| strip(tlv_item(Some(r)))).collect();
+        let count = TypeLengthValues::from(section).take(limit + 5).count();
+        let last = strip(tlv_item(TypeLengthValues::from(section).take(limit + 5).last()));
+        let mut each: Vec<Value> = Vec::new();
+        TypeLengthValues::from(section).take(limit + 5).for_each(|r| each.push(strip(tlv_item(Some(r)))));
+        let folded = TypeLengthValues::from(section).fold(0usize, |acc, _| if acc > limit + 5 { acc } else { acc + 1 });
+        let collected: Vec<Value> = TypeLengthValues::from(section).take(limit + 5).collect::<Vec<_>>().into_iter().map(|r| strip(tlv_item(Some(r)))).collect();
+        let hint = TypeLengthValues::from(section).size_hint();
+        json!({"k": "ok", "nth": nth, "skip2": skip2, "count": count, "last": last, "each": each, "folded": folded,
+               "collected": collected, "hint_lo": hint.0, "hint_hi": hint.1.map(|x| x as i64).unwrap_or(-1)})
+    })
+    .unwrap_or_else(|p| panic_value(&p));
+    writeln!(out, "{}", json!({"sid": sid, "op": "TlvDerived", "d": derived})).unwrap();
+    n += 1;
     let bound = section.len() + 6;
     let mut after_none = 0;
     let mut calls = 0;
